@@ -119,7 +119,58 @@ def check_memo(run, ref, keyspace, rule="P2"):
                construct=f"@{norm(dec)}")
 
 
+def p4(run, project):
+    """what a memoised function returns is one object shared by all calls with the same arguments: a caller that mutates it
+    (mutating method, item store / delete, in-place operator on the name it bound the result to) changes what every later
+    decode of that key sees.  Checked on the unmodified source of every module (the normal form inlines pure memoised
+    helpers, which is exactly what hides this kind of sharing)."""
+    memo = {}
+    raws = {}
+    for mname, m in project.modules.items():
+        try:
+            raw = ast.parse(m.source)
+        except SyntaxError:
+            continue
+        raws[mname] = (m, raw)
+        for fn in [n for n in ast.walk(raw) if isinstance(n, ast.FunctionDef)]:
+            for dec in fn.decorator_list:
+                if norm(dec.func if isinstance(dec, ast.Call) else dec) in MEMO:
+                    memo.setdefault(fn.name, []).append((m, fn))
+    n = 0
+    for mname, (m, raw) in raws.items():
+        for fn in [x for x in ast.walk(raw) if isinstance(x, ast.FunctionDef)]:
+            held = {}
+            for a in ast.walk(fn):
+                if isinstance(a, ast.Assign) and len(a.targets) == 1 and isinstance(a.targets[0], ast.Name) and isinstance(a.value, ast.Call):
+                    cn = a.value.func.attr if isinstance(a.value.func, ast.Attribute) else a.value.func.id if isinstance(a.value.func, ast.Name) else None
+                    if cn in memo:
+                        held[a.targets[0].id] = cn
+            if not held:
+                continue
+            rebound = {v for v in held if sum(1 for a in ast.walk(fn) if isinstance(a, (ast.Assign, ast.AugAssign, ast.For, ast.With))
+                                             and any(isinstance(t, ast.Name) and t.id == v and isinstance(t.ctx, ast.Store) for t in ast.walk(a))) > 1}
+            for x in ast.walk(fn):
+                v = kind = None
+                if isinstance(x, ast.Call) and isinstance(x.func, ast.Attribute) and isinstance(x.func.value, ast.Name) and x.func.attr in MUTATORS:
+                    v, kind = x.func.value.id, f".{x.func.attr}()"
+                elif isinstance(x, (ast.Assign, ast.AugAssign, ast.Delete)):
+                    tg = x.targets if isinstance(x, (ast.Assign, ast.Delete)) else [x.target]
+                    for t in tg:
+                        if isinstance(t, (ast.Subscript, ast.Attribute)) and isinstance(t.value, ast.Name):
+                            v, kind = t.value.id, "item / attribute store"
+                        if isinstance(x, ast.AugAssign) and isinstance(t, ast.Name):
+                            v, kind = t.id, "in-place operator"
+                if v in held and v not in rebound:
+                    n += 1
+                    run.ob("P4", False, f"{mname.split('.')[-1]}.{fn.name}: result of memoised {held[v]}() is not mutated",
+                           f"`{norm(x)[:70]}` mutates `{v}` ({kind}), the object the memoised function {held[v]}() returned: the same object "
+                           "is handed to every later call, so a decode changes what the decodes after it (and interleaved ones) see",
+                           module=m, node=x, func=fn.name, construct=f"mutation of memoised result {held[v]}")
+    run.ob("P4", True, f"no caller mutates the result of a memoised function ({len(memo)} memoised functions, {n} mutations)")
+
+
 def check(run, project):
+    p4(run, project)
     cg = CallGraph(project)
     L = ctx.layout(project)
     entries = []
